@@ -104,6 +104,18 @@ def inproc_history(rng, parallel, tmpdir):
     lats = [rng.choice([0, 0, 1, 2, 4]) for _ in range(64)]
     it = iter(lats)
     t.mbx_resp_latency = lambda: next(it, 0)
+    # fault: one of the reads of the send mailbox's status (the first bus
+    # access of an exchange) is not processed; that exchange fails before
+    # anything was sent and must not use up a counter
+    fault_at = rng.choice([None, None, 1, 2, 3, 5])
+    seen805 = [0]
+
+    def refuse(addr, n):
+        if addr == 0x805 and fault_at is not None:
+            seen805[0] += 1
+            return seen805[0] == fault_at
+        return False
+    t.read_refuse = refuse
     b = bus.Bus([t])
     # "abort": an exchange that ends with an exception after its request
     # went out (upload of an object the terminal does not have)
@@ -148,6 +160,11 @@ def inproc_history(rng, parallel, tmpdir):
                     else:
                         await term.coe_request(CoECmd.SDOINFO,
                                                ODCmd.LIST_REQ, "H", 1)
+                except EtherCatError as ex:
+                    if "not processed" in str(ex) and fault_at is not None:
+                        continue        # the injected fault, as it should
+                    errors.append(f"user {k} {op}: {type(ex).__name__}: "
+                                  f"{str(ex)[:60]}")
                 except Exception as ex:
                     errors.append(f"user {k} {op}: {type(ex).__name__}: "
                                   f"{str(ex)[:60]}")
@@ -179,7 +196,8 @@ def inproc_history(rng, parallel, tmpdir):
         elif e[0] == "mbx_read":
             evs.append(("R",))
     return evs, errors, dict(tasks=ntask, plan=plan_, gaps=gaps,
-                             parallel=parallel, latencies=lats[:12])
+                             parallel=parallel, latencies=lats[:12],
+                             status_read_fault=fault_at)
 
 
 def cancel_waiter_history(rng, parallel, tmpdir):
